@@ -83,6 +83,10 @@ pub fn generate_scenario(property: &str, seed: u64, run: u64, thorough: bool) ->
         if r.chance(0.3) {
             f.reconfig = r.log_uniform(0.004, 0.03);
         }
+        // the chain moves inside a node's cycle
+        if r.chance(0.35) {
+            f.mid_cycle = r.log_uniform(0.05, 0.5);
+        }
         // some signatures travel through the message queue
         if matches!(property, "C14" | "C16" | "C02") && r.chance(if property == "C16" { 0.5 } else { 0.25 }) {
             f.dmq = r.log_uniform(0.1, 0.7);
@@ -284,8 +288,21 @@ impl Driver {
                 }
                 Event::SignerTick { party, policy }
             }
-            3 => Event::SyncView,
-            4 => Event::SignerSyncView { party: *rng.pick(&lagging) },
+            3 => {
+                if f.mid_cycle > 0.0 && rng.chance(f.mid_cycle) {
+                    Event::MidCycleSync { reads: rng.below(14) as u32 }
+                } else {
+                    Event::SyncView
+                }
+            }
+            4 => {
+                let party = *rng.pick(&lagging);
+                if f.mid_cycle > 0.0 && rng.chance(f.mid_cycle) {
+                    Event::SignerMidCycleSync { party, reads: rng.below(10) as u32 }
+                } else {
+                    Event::SignerSyncView { party }
+                }
+            }
             5 => {
                 self.since_epoch = 0;
                 self.epochs_done += 1;
@@ -401,8 +418,9 @@ impl Driver {
                 let is_sig = matches!(w.inflight[&id].kind, MsgKind::Signature { .. });
                 let keep = f.dup > 0.0 && rng.chance(f.dup);
                 let damage = if is_sig && f.corrupt > 0.0 && rng.chance(f.corrupt) {
-                    Some(match rng.below(if w.sc.property == "C02" { 8 } else { 5 }) {
+                    Some(match rng.below(if w.sc.property == "C02" { 10 } else { 5 }) {
                         5..=7 => Damage::SubsetIndexes(rng.next_u64()),
+                        8..=9 => Damage::RepeatIndexes(rng.next_u64()),
                         0 => Damage::SigBit(rng.below(4096) as usize),
                         1 => Damage::DropIndex,
                         2 => Damage::AddIndex(rng.below(w.sc.m + 2)),
@@ -421,7 +439,13 @@ impl Driver {
                 }
                 Event::Deliver { id, keep, damage }
             }
-            5 => Event::SyncView,
+            5 => {
+                if f.mid_cycle > 0.0 && rng.chance(f.mid_cycle) {
+                    Event::MidCycleSync { reads: rng.below(14) as u32 }
+                } else {
+                    Event::SyncView
+                }
+            }
             6 => {
                 self.since_epoch = 0;
                 self.epochs_done += 1;
